@@ -54,9 +54,9 @@ package controllerv1
 //@   modifies nothing
 //@ func (*github.com/metrico/qryn/writer/utils/errors.UnMarshalError).Error
 //@   modifies nothing
-//@ func writeErrorResponse [C01]
+//@ func writeErrorResponse [C01,C05]
 //@   modifies statusWrites, lastStatus
 //@   ensures statusWrites == old(statusWrites) + 1 && lastStatus == statusCode
-//@ func ErrorHandler [C01]
+//@ func ErrorHandler [C01,C05]
 //@   modifies statusWrites, lastStatus
 //@   ensures answered-unless-client-hung-up: statusWrites == old(statusWrites) + 1 || hasPrefix(errText(err), "connection reset by peer")
